@@ -1,23 +1,41 @@
 """C16 — WebSocket frames: correspondence of Ws/Frame.v with proxy/http/websocket/frame.py and
-the property's own statement (independent RFC 6455 encoder, round trip) on the implementation."""
+the property's own statement (independent RFC 6455 encoder, round trip) on the implementation;
+and, for the frame STREAM and the handshake (Ws/Stream.v): the real HttpProtocolHandler + HttpWebServerPlugin
+with a recording websocket route driven through the fake sockets of harness/sim.py, the real
+build_websocket_handshake_* builders and the real WebsocketClient."""
 import struct, base64, hashlib
 from unittest import mock
 import common as C
 
 ID = 'C16'
-COQ_TARGETS = ['theories/Props/C16.vo', 'theories/Ws/FrameCases.vo']
-IMPORTS = 'From PM Require Import Lib.Bytes Ws.Frame Ws.Sha1 Ws.FrameCases.'
-CASE_TYPE = 'case'
-CHECK_FN = 'check_case'
+COQ_TARGETS = ['theories/Props/C16.vo', 'theories/Ws/FrameCases.vo', 'theories/Ws/StreamCases.vo']
+IMPORTS = 'From PM Require Import Lib.Bytes Ws.Frame Ws.Sha1 Ws.FrameCases Ws.Stream Ws.StreamCases.'
+CASE_TYPE = 'scase'
+CHECK_FN = 'check_scase'
 ANCHOR_FILES = ['proxy/http/websocket/frame.py']
+# also modelled since the stream extension (line coverage is recorded for them; the digest baseline in
+# harness/anchors.json still covers ANCHOR_FILES only)
+COVERAGE_FILES = ['proxy/http/server/web.py', 'proxy/http/websocket/client.py', 'proxy/common/utils.py']
 RULE = ('cases = frames (16 flag combinations x opcodes 0..15 (+ invalid) x masked/unmasked with random keys x payload lengths '
         '{0..130, 65530..65540, sampled up to 2^20}) built by WebsocketFrame.build, the result followed by random trailing bytes '
         'parsed back by WebsocketFrame.parse, damaged/truncated frames, and handshake keys; a case is non-trivial when the '
-        'implementation returned a value (no exception) and the payload or key is non-empty; distinct = distinct inputs')
+        'implementation returned a value (no exception) and the payload or key is non-empty; distinct = distinct inputs. '
+        'STREAM cases (kinds ws/*): one client connection of the real web server with a recording websocket route: an upgrade '
+        'request, then 1-4 segments each holding 0-5 generated frames (several frames per segment, the first ones optionally in '
+        'the segment of the upgrade request), close frames in the middle followed by frames/garbage/later segments; a separate '
+        'malformed stream (last frame truncated at every kind of position, frames split across segments, random bytes); '
+        'handshake cases (kinds hs/*): upgrade requests with random keys and without key, the handshake request builder; '
+        'client cases (kinds client/*): WebsocketClient.upgrade against scripted responses, run_once on segments of 1-3 frames. '
+        'A stream case is non-trivial when at least one frame was delivered to the route')
 TRUSTED = ['struct.pack/unpack semantics for !B !H !Q as modelled in Ws/Frame.v (be_encode/be_decode, range errors)',
            'hashlib.sha1 and base64.b64encode are compared against the executable Coq reference Ws/Sha1.v on every run',
            'RFC 6455 section 5.2 as transcribed in Ws/FrameSpec.v (rfc_encode), cross-validated on every run against the independent Python encoder in this module']
-ASSUMPTIONS = ['secrets.token_bytes(4) returns 4 octets (the random masking key is an input of the model)']
+ASSUMPTIONS = ['secrets.token_bytes(4) returns 4 octets (the random masking key is an input of the model)',
+               'stream cases: the websocket route keeps the default on_client_data (returns raw), client_recvbuf_size is the '
+               'default 128 KiB (larger segments are split by recv itself: case kind ws/recvbuf), one handle_data call per recv']
+TRUSTED += ['harness/sim.py fake sockets + the recording route plugin (snapshots of the reused frame object at call time)',
+            'HttpParser: the value of the Sec-WebSocket-Key header is what request.header() returns (parser itself: C03/C15)',
+            'Net/Responses.v status-line / header-field recogniser as transcription of RFC 7230 (cross-checked by h11 on every run)']
 SHARD = 150
 
 
@@ -82,7 +100,7 @@ def mk_frame(rng, n, masked=None, opcode=None):
     return fr
 
 
-def generate(rng, tier):
+def generate_frames(rng, tier):
     cases = []
     quick = tier != 'thorough'
     lengths = list(range(0, 131)) + list(range(65530, 65541))
@@ -202,7 +220,7 @@ def get_frame(f):
                 data=None if f.data is None else bytes(f.data))
 
 
-def run_impl(case):
+def run_impl_frame(case):
     from proxy.http.websocket.frame import WebsocketFrame
     k = case['kind']
     if k == 'build':
@@ -258,7 +276,7 @@ def obs_frame_rest(out):
     return '(OkObs (%s, %s))' % (coq_frame(out['parsed']), coq_bytes_compact(out['rest']))
 
 
-def coq_term(case, out):
+def coq_term_frame(case, out):
     k = case['kind']
     if k == 'seq':
         terms = []
@@ -288,11 +306,7 @@ def coq_term(case, out):
         return 'CAccept %s %s' % (C.coq_bytes(case['key']), C.coq_bytes(out['token']))
 
 
-def extra_terms(case, out):
-    return []
-
-
-def oracle(case, out):
+def oracle_frame(case, out):
     """the property itself, evaluated on the implementation with an independent encoder"""
     k = case['kind']
     if k == 'seq':
@@ -335,11 +349,7 @@ def oracle(case, out):
     return None
 
 
-def coq_term_all(case, out):
-    return coq_term(case, out)
-
-
-def nontrivial(case, out):
+def nontrivial_frame(case, out):
     k = case['kind']
     if k == 'seq':
         return all('build_err' not in o for o in out['steps'])
@@ -350,11 +360,7 @@ def nontrivial(case, out):
     return len(case['key']) > 0
 
 
-def classify(case, out, failure):
-    return None
-
-
-def model_expr(case):
+def model_expr_frame(case):
     k = case['kind']
     if k == 'seq':
         return 'build %s (%s)' % (C.coq_bytes(case['steps'][-1]['rnd']), coq_frame(case['steps'][-1]['frame']))
@@ -365,7 +371,7 @@ def model_expr(case):
     return 'key_to_accept %s' % C.coq_bytes(case['key'])
 
 
-def shrink(case, fails):
+def shrink_frame(case, fails):
     if case['kind'] != 'build':
         return case
     cur = dict(case)
@@ -380,3 +386,590 @@ def shrink(case, fails):
                 if fails(t):
                     return t
     return cur
+
+
+# =====================================================================================================
+# The frame STREAM and the handshake (Ws/Stream.v): the real web server, builders and client
+# =====================================================================================================
+GUID = b'258EAFA5-E914-47DA-95CA-C5AB0DC85B11'
+FINDING_REASSEMBLY = 'C16-ws-no-reassembly'
+FINDING_HS_CL = 'C16-handshake-content-length'
+FRAME_KINDS = ('build', 'parse', 'seq', 'accept')
+_SUPPRESSED = {}        # finding id -> number of cases on which it was seen while not listed in known_findings.json
+
+
+def _listed(fid):
+    return any(k['id'] == fid and k.get('status', 'open') == 'open' for k in C.load_known_findings(ID))
+
+
+def py_accept(key):
+    return base64.b64encode(hashlib.sha1(key + GUID).digest())
+
+
+def upgrade_request(key, path=b'/ws'):
+    h = [b'GET ' + path + b' HTTP/1.1', b'Host: example.org', b'Upgrade: websocket', b'Connection: Upgrade']
+    if key is not None:
+        h.append(b'Sec-WebSocket-Key: ' + key)
+    h.append(b'Sec-WebSocket-Version: 13')
+    return b'\r\n'.join(h) + b'\r\n\r\n'
+
+
+def ws_frame(rng, n=None, opcode=None, masked=None):
+    """a well-formed frame as a browser would send it (explicit key when masked)"""
+    if n is None:
+        n = rng.choice([0, 0, 1, 2, 5, 17, 60, 125, 126, 127, 200, 300, 1000])
+    fr = mk_frame(rng, n, masked=masked, opcode=opcode if opcode is not None else rng.choice([0, 1, 1, 2, 2, 9, 10, 3, 7, 11, 15]))
+    fr['payload_length'] = None
+    if n > 1000:
+        fr['data'] = [[rng.randrange(256) for _ in range(rng.choice([1, 2, 3, 4, 6]))], n]
+    if fr['masked'] and fr['mask'] is None:
+        fr['mask'] = bytes(rng.randrange(256) for _ in range(4))
+    if not fr['masked']:
+        fr['mask'] = None
+    return fr
+
+
+def seg_bytes(case, seg):
+    """a segment is a list of parts: {'f': i} frame i whole, {'f': i, 'cut': [a, b]} bytes a:b of its encoding, {'raw': bytes}"""
+    out = b''
+    for part in seg:
+        if 'raw' in part:
+            out += bytes(part['raw'])
+        else:
+            enc = ref_encode(case['frames'][part['f']], b'\x00\x00\x00\x00')
+            if 'cut' in part:
+                a, b = part['cut']
+                enc = enc[a:(len(enc) if b is None else b)]
+            out += enc
+    return out
+
+
+def want_frame(fr):
+    """what the route must be shown for a generated frame"""
+    data = frame_data(fr) or b''
+    return dict(fin=fr['fin'], rsv1=fr['rsv1'], rsv2=fr['rsv2'], rsv3=fr['rsv3'], opcode=fr['opcode'], masked=fr['masked'],
+                payload_length=len(data), mask=fr['mask'] if fr['masked'] else None, data=data)
+
+
+def gen_stream_cases(rng, tier):
+    quick = tier != 'thorough'
+    cases = []
+    mult = 1 if quick else 8
+
+    def key():
+        return base64.b64encode(bytes(rng.randrange(256) for _ in range(16)))
+
+    # ---- structured stream: whole frames, several per segment, no close frame
+    for i in range(36 * mult):
+        frames, segs = [], []
+        for _ in range(rng.choice([1, 1, 2, 3, 4])):
+            seg = []
+            for _ in range(rng.choice([0, 1, 1, 2, 3, 5])):
+                frames.append(ws_frame(rng)); seg.append({'f': len(frames) - 1})
+            if seg or rng.random() < 0.3:
+                segs.append(seg)
+        segs = [s for s in segs if s]         # an empty recv means EOF, not an empty segment
+        if not segs:
+            frames.append(ws_frame(rng)); segs = [[{'f': 0}]]
+        cases.append(dict(kind='ws/stream', key=key(), frames=frames, segs=segs, attach=rng.random() < 0.3))
+    # boundary: both length thresholds inside a stream, and large frames (below the 128 KiB receive buffer)
+    for n, m in ([(125, False), (126, True), (127, False), (65535, True), (65536, False)] if quick else
+                 [(125, False), (126, True), (127, False), (65535, True), (65536, False), (65536, True), (100000, True), (131000, False)]):
+        frames = [ws_frame(rng, 3), ws_frame(rng, n, masked=m), ws_frame(rng, 0)]
+        big = n > 1000
+        cases.append(dict(kind='ws/stream-boundary', key=key(), frames=frames,
+                          segs=[[{'f': 0}], [{'f': 1}], [{'f': 2}]] if big else [[{'f': 0}, {'f': 1}, {'f': 2}]], attach=False))
+    # ---- close frames in the middle
+    for i in range(16 * mult):
+        frames, segs = [], []
+        nseg = rng.choice([1, 2, 3])
+        cseg = rng.randrange(nseg)
+        for si in range(nseg):
+            seg = []
+            k = rng.choice([0, 1, 2, 3])
+            cpos = rng.randrange(k + 1) if si == cseg else None
+            for j in range(k + 1):
+                if cpos is not None and j == cpos:
+                    c = ws_frame(rng, rng.choice([0, 2, 2, 20]), opcode=8)
+                    frames.append(c); seg.append({'f': len(frames) - 1})
+                    if rng.random() < 0.3:
+                        seg.append({'raw': bytes(rng.randrange(256) for _ in range(rng.choice([1, 2, 3, 9])))})
+                if j < k:
+                    frames.append(ws_frame(rng)); seg.append({'f': len(frames) - 1})
+            if seg:                               # an empty recv means EOF, not an empty segment
+                segs.append(seg)
+        cases.append(dict(kind='ws/close', key=key(), frames=frames, segs=segs, attach=rng.random() < 0.3))
+    # ---- malformed stream 1: the last frame of the last segment is cut (every kind of position), nothing follows
+    for i in range(28 * mult):
+        frames = [ws_frame(rng) for _ in range(rng.choice([0, 1, 2]))]
+        last = ws_frame(rng, rng.choice([0, 1, 5, 126, 130, 300, 70000 if not quick and rng.random() < 0.3 else 200]))
+        frames.append(last)
+        enc = ref_encode(last, b'')
+        hdr = len(enc) - len(frame_data(last) or b'')
+        pos = rng.choice([1, 1, 2, 3, max(1, hdr - 1), hdr, hdr + 1, rng.randrange(1, len(enc)), len(enc) - 1])
+        pos = max(1, min(pos, len(enc) - 1))
+        seg = [{'f': j} for j in range(len(frames) - 1)] + [{'f': len(frames) - 1, 'cut': [0, pos]}]
+        cases.append(dict(kind='ws/trunc', key=key(), frames=frames, segs=[seg], attach=rng.random() < 0.2))
+    # ---- malformed stream 2: a valid stream whose segment boundaries do not respect frame boundaries
+    for i in range(22 * mult):
+        frames = [ws_frame(rng) for _ in range(rng.choice([1, 2, 3]))]
+        whole = [len(ref_encode(f, b'')) for f in frames]
+        j = rng.randrange(len(frames))
+        pos = rng.randrange(1, whole[j]) if whole[j] > 1 else 1
+        seg1 = [{'f': x} for x in range(j)] + [{'f': j, 'cut': [0, pos]}]
+        seg2 = [{'f': j, 'cut': [pos, None]}] + [{'f': x} for x in range(j + 1, len(frames))]
+        cases.append(dict(kind='ws/split', key=key(), frames=frames, segs=[seg1, seg2], attach=False))
+    # ---- malformed stream 3: random bytes
+    for i in range(14 * mult):
+        segs = [[{'raw': bytes(rng.randrange(256) for _ in range(rng.choice([1, 2, 3, 4, 9, 10, 11, 40])))}]
+                for _ in range(rng.choice([1, 2]))]
+        cases.append(dict(kind='ws/garbage', key=key(), frames=[], segs=segs, attach=rng.random() < 0.2))
+    if not quick:
+        # one frame larger than client_recvbuf_size: recv itself splits it
+        fr = ws_frame(rng, 140000, masked=False)
+        fr['data'] = [[rng.randrange(100, 126)], 140000]     # the tail re-read as headers gives ~80 frames, not thousands
+        cases.append(dict(kind='ws/recvbuf', key=key(), frames=[fr], segs=[[{'f': 0}]], attach=False))
+    # ---- handshake
+    for i in range(20 * mult):
+        r = rng.random()
+        if r < 0.6:
+            k = key()
+        elif r < 0.8:
+            alphabet = bytes(range(33, 127)) + bytes([128, 200, 255])
+            k = bytes(rng.choice(alphabet) for _ in range(rng.choice([1, 2, 16, 24, 27, 55, 56, 64, 119, 120])))
+        else:
+            k = None
+        cases.append(dict(kind='hs/upgrade', key=k, frames=[], segs=[], attach=False))
+    cases.append(dict(kind='hs/upgrade', key=b'dGhlIHNhbXBsZSBub25jZQ==', frames=[], segs=[], attach=False))
+    for i in range(8 * mult):
+        cases.append(dict(kind='hs/request', key=key(), method=rng.choice([b'GET', b'GET', b'POST']),
+                          url=rng.choice([b'/', b'/ws', b'/a/b?x=1']), host=rng.choice([b'localhost', b'example.org:8080', b'::1'])))
+    # ---- WebsocketClient
+    for i in range(10 * mult):
+        k = key()
+        r = rng.randrange(4)
+        accept = py_accept(k) if r < 2 else (py_accept(k)[:-2] + b'A=' if r == 2 else py_accept(key()))
+        cases.append(dict(kind='client/upgrade', key16=base64.b64decode(k), accept=accept, path=rng.choice([b'/', b'/ws']),
+                          via_server_builder=r == 0))
+    for i in range(16 * mult):
+        frames = [ws_frame(rng) for _ in range(rng.choice([1, 1, 2, 3]))]
+        seg = [{'f': j} for j in range(len(frames))]
+        r = rng.random()
+        if r < 0.25:
+            enc = ref_encode(frames[-1], b'')
+            seg[-1] = {'f': len(frames) - 1, 'cut': [0, rng.randrange(1, len(enc)) if len(enc) > 1 else 1]}
+        elif r < 0.35:
+            seg = [{'raw': bytes(rng.randrange(256) for _ in range(rng.choice([1, 2, 3, 12])))}]
+        cases.append(dict(kind='client/read', frames=frames, segs=[seg]))
+    return cases
+
+
+def generate(rng, tier):
+    return generate_frames(rng, tier) + gen_stream_cases(rng, tier)
+
+
+# ----------------------------------------------------------------- the real web server with a recording websocket route
+_WS = {}
+
+
+def ws_env():
+    if not _WS:
+        import sim
+        from proxy.http.server import HttpWebServerBasePlugin, httpProtocolTypes
+        log = []
+
+        class C16WsRoute(HttpWebServerBasePlugin):
+            def routes(self):
+                return [(httpProtocolTypes.WEBSOCKET, r'/ws$')]
+
+            def handle_request(self, request):
+                log.append(('http', bytes(request.path or b'')))
+
+            def on_websocket_open(self):
+                log.append(('open',))
+
+            def on_websocket_message(self, frame):
+                # the frame object is reset and reused by the caller: take a snapshot now
+                log.append(('msg', get_frame(frame)))
+
+            def on_client_connection_close(self):
+                log.append(('closed',))
+
+        _WS.update(sim=sim, log=log, flags=sim.make_flags(args=['--log-level', 'c', '--enable-web-server'], plugins=[C16WsRoute]))
+    return _WS
+
+
+def run_conn(case):
+    env = ws_env()
+    sim, log = env['sim'], env['log']
+    del log[:]
+    segs = [seg_bytes(case, s) for s in case['segs']]
+    first = upgrade_request(case['key'])
+    if case.get('attach') and segs:
+        first += segs[0]
+        feed = [first] + segs[1:]
+    else:
+        feed = [first] + segs
+    out = dict(ws_segs=segs)
+    with sim.Sim(flags=env['flags']) as s:
+        bufsz = s.flags.client_recvbuf_size
+        s.client.feed(*feed)
+        end = 0
+        hdr = None
+        for _ in range(len(feed) * 3 + 12):
+            r = s.auto_step()
+            if hdr is None and s.h.request.is_complete:
+                try:
+                    hdr = s.h.request.header(b'Sec-WebSocket-Key') if s.h.request.has_header(b'Sec-WebSocket-Key') else False
+                except Exception:
+                    hdr = False
+            if r == 'ok':
+                continue
+            if r == 'idle':
+                break
+            if r == 'teardown':
+                end = 1
+            elif isinstance(r, tuple):
+                end = 1000 + C.exn_code(r[1]); out['err'] = repr(r[1])
+            break
+        else:
+            out['harness_note'] = 'step budget exhausted'
+        pending = b''.join(bytes(x) for x in getattr(s.h.work, 'buffer', []))
+        out.update(sent=bytes(s.client.out), queued=bytes(s.client.out) + pending, end=end, client_closed=s.client.closed, torn=s.torn,
+                   key_header=hdr, opened=('open',) in log, route_closed=('closed',) in log,
+                   delivered=[e[1] for e in log if e[0] == 'msg'],
+                   # what each recv() handed to the handler after the request (recv splits segments above its buffer size)
+                   recv_split=any(len(x) > bufsz for x in feed))
+    if out['recv_split']:
+        pieces = []
+        for x in feed:
+            pieces += [x[i:i + bufsz] for i in range(0, len(x), bufsz)]
+        rest = pieces[1:] if not (case.get('attach') and segs) else None
+        out['ws_segs'] = rest if rest is not None else segs
+    return out
+
+
+def run_hs_request(case):
+    from proxy.common.utils import build_websocket_handshake_request
+    from proxy.common.constants import PROXY_AGENT_HEADER_VALUE
+    return dict(raw=build_websocket_handshake_request(case['key'], method=case['method'], url=case['url'], host=case['host']),
+                ua=PROXY_AGENT_HEADER_VALUE)
+
+
+class _FakeSelector:
+    def __init__(self, mask):
+        self.mask = mask
+    def register(self, *a, **k): pass
+    def unregister(self, *a, **k): pass
+    def close(self): pass
+    def select(self, timeout=None):
+        return [(None, self.mask)]
+
+
+def _mk_client(sock, path, on_message=None):
+    from proxy.http.websocket.client import WebsocketClient
+    with mock.patch('proxy.http.websocket.client.new_socket_connection', lambda addr, *a, **k: sock), \
+            mock.patch('socket.gethostbyname', lambda h: '127.0.0.1'):
+        c = WebsocketClient(b'localhost', 8899, path, on_message=on_message)
+    try:
+        c.selector.close()
+    except Exception:
+        pass
+    return c
+
+
+def run_client_upgrade(case):
+    import sim
+    from proxy.common.utils import build_websocket_handshake_response, build_http_response
+    from proxy.common.constants import PROXY_AGENT_HEADER_VALUE
+    sock = sim.FakeSock('ws-upstream')
+    if case['via_server_builder']:
+        resp = build_websocket_handshake_response(case['accept'])
+    else:
+        resp = build_http_response(101, reason=b'Switching Protocols',
+                                   headers={b'Upgrade': b'websocket', b'Connection': b'Upgrade', b'Sec-WebSocket-Accept': case['accept']})
+    sock.feed(resp)
+    c = _mk_client(sock, case['path'])
+    out = dict(ua=PROXY_AGENT_HEADER_VALUE)
+    with mock.patch('secrets.token_bytes', lambda n: case['key16']):
+        try:
+            c.upgrade(); out['accepted'] = True
+        except AssertionError:
+            out['accepted'] = False
+        except Exception as e:
+            out['accepted'] = False; out['err'] = repr(e)
+    out['sent'] = bytes(sock.out)
+    return out
+
+
+def run_client_read(case):
+    import sim, selectors
+    sock = sim.FakeSock('ws-upstream')
+    got = []
+    c = _mk_client(sock, b'/', on_message=lambda f: got.append(get_frame(f)))
+    c.selector = _FakeSelector(selectors.EVENT_READ)
+    raw = seg_bytes(case, case['segs'][0])
+    sock.feed(raw)
+    out = dict(raw=raw)
+    try:
+        out['ret'] = bool(c.run_once())
+    except Exception as e:
+        out['read_err'] = C.exn_code(e); out['err'] = repr(e)
+    out['got'] = got
+    return out
+
+
+def run_impl(case):
+    k = case['kind']
+    if k in FRAME_KINDS:
+        return run_impl_frame(case)
+    if k.startswith('ws/') or k == 'hs/upgrade':
+        return run_conn(case)
+    if k == 'hs/request':
+        return run_hs_request(case)
+    if k == 'client/upgrade':
+        return run_client_upgrade(case)
+    if k == 'client/read':
+        return run_client_read(case)
+    raise ValueError(k)
+
+
+# ----------------------------------------------------------------- Coq terms
+def coq_frames(frs):
+    return C.coq_list('(%s)' % coq_frame(f) for f in frs)
+
+
+def coq_term(case, out):
+    k = case['kind']
+    if k in FRAME_KINDS:
+        t = coq_term_frame(case, out)
+        if t is None:
+            return None
+        return ['SFrame (%s)' % x for x in (t if isinstance(t, list) else [t])]
+    if k.startswith('ws/') or k == 'hs/upgrade':
+        terms = []
+        hs = py_accept(case['key']) if case['key'] is not None else None
+        # the handshake: everything queued for the client on this connection must be exactly the 101 (or nothing, with
+        # KeyError).  queued = sent + still buffered: when an exception leaves the handler in the very step that queued the
+        # 101 (frames in the segment of the upgrade request) the buffer is dropped with the connection (C07's subject).
+        if case['key'] is None:
+            terms.append('SHandshake None (%s)' % ('(ErrObs %d)' % (out['end'] - 1000) if out['end'] >= 1000 and not out['queued']
+                                                  else '(OkObs %s)' % C.coq_bytes(out['queued'])))
+        else:
+            terms.append('SHandshake (Some %s) (OkObs %s)' % (C.coq_bytes(case['key']), C.coq_bytes(out['queued'])))
+        if k.startswith('ws/'):
+            ws_sent = b''      # the handshake term above already pins every byte sent
+            terms.append('SConn %s %s %s %d' % (C.coq_list(coq_bytes_compact(x) for x in out['ws_segs']),
+                                                coq_frames(out['delivered']), C.coq_bytes(ws_sent), out['end']))
+        return terms
+    if k == 'hs/request':
+        return 'SHandshakeRequest %s %s %s %s %s %s' % tuple(C.coq_bytes(x) for x in (
+            out['ua'], case['key'], case['method'], case['url'], case['host'], out['raw']))
+    if k == 'client/upgrade':
+        key = base64.b64encode(case['key16'])
+        return ['SClientUpgrade %s %s %s' % (C.coq_bytes(key), C.coq_bytes(case['accept']), C.coq_bool(out['accepted'])),
+                'SHandshakeRequest %s %s %s %s %s %s' % tuple(C.coq_bytes(x) for x in (
+                    out['ua'], key, b'GET', case['path'], b'localhost', out['sent']))]
+    if k == 'client/read':
+        if 'read_err' in out:
+            obs = '(ErrObs %d)' % out['read_err']
+        elif len(out['got']) == 1:
+            obs = '(OkObs (%s))' % coq_frame(out['got'][0])
+        else:
+            return 'SClientRead %s (ErrObs 98)' % coq_bytes_compact(out['raw'])     # cannot match: on_message not called exactly once
+        return 'SClientRead %s %s' % (coq_bytes_compact(out['raw']), obs)
+    return None
+
+
+# ----------------------------------------------------------------- oracles (the property on the implementation, no Coq involved)
+def h11_check_101(resp, key):
+    import h11
+    c = h11.Connection(h11.CLIENT)
+    c.send(h11.Request(method='GET', target='/ws', headers=[('Host', 'example.org'), ('Upgrade', 'websocket'), ('Connection', 'Upgrade'),
+                                                             ('Sec-WebSocket-Key', 'x'), ('Sec-WebSocket-Version', '13')]))
+    c.send(h11.EndOfMessage())
+    c.receive_data(resp)
+    try:
+        ev = c.next_event()
+    except Exception as e:
+        return 'h11 rejects the handshake response: %r' % e
+    if not isinstance(ev, h11.InformationalResponse) or ev.status_code != 101:
+        return 'h11 does not see a 101 response: %r' % (ev,)
+    hd = {}
+    for n, v in ev.headers:
+        hd.setdefault(bytes(n).lower(), []).append(bytes(v))
+    if hd.get(b'upgrade', [b''])[0].lower() != b'websocket' or b'upgrade' not in [x.lower() for x in hd.get(b'connection', [])]:
+        return 'handshake response lacks Upgrade: websocket / Connection: Upgrade'
+    if hd.get(b'sec-websocket-accept') != [py_accept(key)]:
+        return 'Sec-WebSocket-Accept is not base64(sha1(key + GUID)): %r' % hd.get(b'sec-websocket-accept')
+    if ev.http_version != b'1.1' or bytes(ev.reason) != b'Switching Protocols':
+        return 'unexpected status line'
+    td = c.trailing_data
+    if td[0]:
+        return 'bytes follow the handshake response: %r' % td[0][:40]
+    return None
+
+
+def _finding(fid, text):
+    """a recorded finding is reported as an oracle failure only once it is listed in known_findings.json (the driver then
+    prints KNOWN-FINDING); until the coordinator lists it, occurrences are counted and reported in the evidence notes"""
+    if _listed(fid):
+        return '%s: %s' % (fid, text)
+    _SUPPRESSED[fid] = _SUPPRESSED.get(fid, 0) + 1
+    return None
+
+
+def oracle_conn(case, out):
+    k = case['kind']
+    if case['key'] is None:
+        # upgrade request without Sec-WebSocket-Key: nothing the property says; observed: KeyError leaves the handler
+        return None
+    if out['key_header'] is not False and out['key_header'] is not None and bytes(out['key_header']) != case['key']:
+        return None         # the parser normalised the header value: outside this generator's intention
+    if not out['opened']:
+        return 'websocket route was not opened by a valid upgrade request'
+    f = h11_check_101(out['queued'], case['key'])
+    if f:
+        return f
+    want_all = [want_frame(fr) for fr in case['frames']]
+    if k in ('ws/stream', 'ws/stream-boundary'):
+        if out['end'] != 0:
+            return 'a stream of well-formed frames ended the connection (end code %d %s)' % (out['end'], out.get('err', ''))
+        if out['delivered'] != want_all:
+            return 'frames delivered to on_websocket_message differ from the frames sent (%d delivered, %d sent)' % (len(out['delivered']), len(want_all))
+        return None
+    if k == 'ws/close':
+        ci = next(i for i, fr in enumerate(case['frames']) if fr['opcode'] == 8)
+        if out['delivered'] != want_all[:ci]:
+            return 'frames delivered before a close frame differ from the frames sent before it (%d delivered, %d sent)' % (len(out['delivered']), ci)
+        if out['end'] != 1 or not out['client_closed']:
+            return 'a close frame did not tear the connection down (end code %d)' % out['end']
+        if not out['route_closed']:
+            return 'route.on_client_connection_close was not called after a close frame'
+        return None
+    if k in ('ws/split', 'ws/recvbuf'):
+        # the bytes received are a valid stream: every frame must arrive intact whatever the segmentation
+        if out['delivered'] == want_all and out['end'] == 0:
+            return None
+        return _finding(FINDING_REASSEMBLY, 'a frame spanning two received segments is not reassembled: %d frames sent, %d delivered%s, end code %d' % (
+            len(want_all), len(out['delivered']), '' if out['delivered'][:len(want_all) - 1] != want_all[:-1] else ' (last one short)', out['end']))
+    if k == 'ws/trunc':
+        # the stream stops inside its last frame: the complete frames must be delivered, the incomplete one must not
+        complete = want_all[:-1]
+        if out['delivered'] == complete and out['end'] == 0:
+            return None
+        if out['delivered'][:len(complete)] != complete:
+            return 'complete frames before a truncated one were not delivered intact'
+        return _finding(FINDING_REASSEMBLY, 'a segment ending inside a frame: %s' % (
+            'exception leaves the handler (%s)' % out.get('err') if out['end'] >= 1000 else
+            'an incomplete frame was delivered to the route as a message (payload_length %r, %d data bytes)' % (
+                out['delivered'][-1]['payload_length'], len(out['delivered'][-1]['data'] or b'')) if len(out['delivered']) > len(complete) else 'end code %d' % out['end']))
+    return None
+
+
+def oracle(case, out):
+    k = case['kind']
+    if k in FRAME_KINDS:
+        return oracle_frame(case, out)
+    if k.startswith('ws/') or k == 'hs/upgrade':
+        f = oracle_conn(case, out)
+        if f is None and case['key'] is not None and re_cl_in_1xx(out['queued']):
+            f = _finding(FINDING_HS_CL, 'the 101 handshake response carries a Content-Length header field (RFC 7230 3.3.2: MUST NOT in 1xx)')
+        return f
+    if k == 'hs/request':
+        import h11
+        c = h11.Connection(h11.SERVER)
+        c.receive_data(out['raw'])
+        try:
+            ev = c.next_event()
+        except Exception as e:
+            return 'h11 rejects the handshake request: %r' % e
+        hd = {bytes(n).lower(): bytes(v) for n, v in ev.headers}
+        if bytes(ev.method) != case['method'] or bytes(ev.target) != case['url']:
+            return 'handshake request line differs'
+        if hd.get(b'sec-websocket-key') != case['key'] or hd.get(b'upgrade') != b'websocket' or hd.get(b'connection', b'').lower() != b'upgrade' \
+                or hd.get(b'sec-websocket-version') != b'13' or hd.get(b'host') != case['host']:
+            return 'handshake request lacks a required header field: %r' % hd
+        return None
+    if k == 'client/upgrade':
+        key = base64.b64encode(case['key16'])
+        if out['accepted'] != (case['accept'] == py_accept(key)):
+            return 'WebsocketClient.upgrade %s an accept token that is %s' % (
+                'accepted' if out['accepted'] else 'rejected', 'wrong' if out['accepted'] else 'right')
+        return None
+    if k == 'client/read':
+        return None         # only the first frame of a segment reaches on_message (C16_client); compared with the model
+    return None
+
+
+def re_cl_in_1xx(resp):
+    head = resp.split(b'\r\n\r\n', 1)[0].split(b'\r\n')
+    return head[0].split(b' ')[1:2] == [b'101'] and any(h.lower().startswith(b'content-length:') for h in head[1:])
+
+
+def nontrivial(case, out):
+    k = case['kind']
+    if k in FRAME_KINDS:
+        return nontrivial_frame(case, out)
+    if k.startswith('ws/'):
+        return len(out.get('delivered', [])) > 0
+    if k == 'hs/upgrade':
+        return bool(out.get('queued'))
+    if k == 'client/read':
+        return len(out.get('got', [])) == 1
+    return True
+
+
+def classify(case, out, failure):
+    for fid in (FINDING_REASSEMBLY, FINDING_HS_CL):
+        if isinstance(failure, str) and failure.startswith(fid + ':'):
+            return fid
+    return None
+
+
+def model_expr(case):
+    k = case['kind']
+    if k in FRAME_KINDS:
+        return model_expr_frame(case)
+    if k.startswith('ws/'):
+        return 'ws_conn %s' % C.coq_list(coq_bytes_compact(seg_bytes(case, s)) for s in case['segs'])
+    if k == 'hs/upgrade':
+        return 'switch_to_websocket %s' % C.coq_option(C.coq_bytes, case['key'])
+    if k == 'client/read':
+        return 'client_on_read %s' % coq_bytes_compact(seg_bytes(case, case['segs'][0]))
+    return 'tt'
+
+
+def shrink(case, fails):
+    k = case['kind']
+    if k in FRAME_KINDS:
+        return shrink_frame(case, fails)
+    if not k.startswith('ws/'):
+        return case
+    cur = case
+    # drop whole segments, then whole parts, keeping the case failing
+    changed = True
+    while changed:
+        changed = False
+        for i in range(len(cur['segs'])):
+            if len(cur['segs']) > 1:
+                t = dict(cur, segs=cur['segs'][:i] + cur['segs'][i + 1:])
+                if fails(t):
+                    cur = t; changed = True; break
+            for j in range(len(cur['segs'][i])):
+                if len(cur['segs'][i]) > 1:
+                    t = dict(cur, segs=cur['segs'][:i] + [cur['segs'][i][:j] + cur['segs'][i][j + 1:]] + cur['segs'][i + 1:])
+                    if fails(t):
+                        cur = t; changed = True; break
+            if changed:
+                break
+    return cur
+
+
+def extra_checks(rng, tier):
+    notes = []
+    for fid, n in sorted(_SUPPRESSED.items()):
+        notes.append('finding %s observed on %d generated/corpus cases; it is not (yet) listed in known_findings.json, so it is reported '
+                     'here and in notes/C16-stream.md instead of as KNOWN-FINDING (theorems: C16_stream_segmentation_refuted, '
+                     'C16_stream_cut_payload, C16_stream_cut_header, C16_handshake_wellformed)' % (fid, n))
+    return dict(failures=[], notes=notes, findings_observed=dict(_SUPPRESSED))
